@@ -59,6 +59,40 @@ type Graph struct {
 	In     [][]Src `json:"in"`     // In[i][p] = producer feeding input port p of instance i
 	NExtIn int     `json:"nextin"` // number of external inputs (all used)
 	Outs   []Src   `json:"outs"`   // producer of each external output
+	// Long: a long chain (size-boundary family). Its mappings are the chain on one CP, every cut into two contiguous
+	// CPs and one instance per CP (all set partitions of 17 instances cannot be enumerated); its input vectors are
+	// a fixed small set when it has more than 3 external inputs.
+	Long bool `json:"long,omitempty"`
+}
+
+// longChains: chains of n one-input instances (n+1 registers / temporaries on one CP) and of k two-input adders
+// (k+1 external inputs on one CP) around the sizes where register and port names get a second digit and where the
+// register count crosses a power of two.
+func longChains() []*Graph {
+	var out []*Graph
+	for _, n := range []int{9, 10, 11, 16, 17} {
+		g := &Graph{NExtIn: 1, Long: true}
+		for i := 0; i < n; i++ {
+			g.Kinds = append(g.Kinds, 0)
+			g.In = append(g.In, []Src{{i - 1, 0}})
+		}
+		g.Outs = []Src{{n - 1, 0}}
+		out = append(out, g)
+	}
+	for _, k := range []int{9, 10, 11} {
+		g := &Graph{NExtIn: k + 1, Long: true}
+		for i := 0; i < k; i++ {
+			g.Kinds = append(g.Kinds, 1)
+			if i == 0 {
+				g.In = append(g.In, []Src{{-1, 0}, {-1, 1}})
+			} else {
+				g.In = append(g.In, []Src{{i - 1, 0}, {-1, i + 1}})
+			}
+		}
+		g.Outs = []Src{{k - 1, 0}}
+		out = append(out, g)
+	}
+	return out
 }
 
 func (g *Graph) N() int { return len(g.Kinds) }
@@ -222,6 +256,7 @@ type Bounds struct {
 	// (one external input, one external output): the smallest graphs that can put TWO internally linked pairs on
 	// two different CPs.
 	UnaryExtra  int
+	LongChains  bool // the size-boundary family, see longChains
 	RestrictTop bool // at MaxInst instances: at most one two-input and one two-output fragment
 	TopMaxOut   int  // at MaxInst instances: maximum number of external outputs (0 = MaxExtOut)
 	TopMaxIn    int  // at MaxInst instances: maximum number of external inputs (0 = MaxExtIn)
@@ -280,6 +315,9 @@ func enumerate(b Bounds) []*Graph {
 		recU(0)
 		// explored first: a deadline cap on a loaded machine then cuts the tail of the 3-instance graphs, never this family
 		out = append(extra, out...)
+	}
+	if b.LongChains {
+		out = append(longChains(), out...)
 	}
 	return out
 }
@@ -462,6 +500,22 @@ func linearExtensions(block []int, reach [][]bool) [][]int {
 
 // configs lists ALL set partitions x ALL topological orders inside each block.
 func (g *Graph) configs() []Config {
+	if g.Long {
+		n := g.N()
+		all := make([]int, n)
+		for i := range all {
+			all[i] = i
+		}
+		res := []Config{{Blocks: [][]int{all}}}
+		for cut := 1; cut < n; cut++ {
+			res = append(res, Config{Blocks: [][]int{append([]int(nil), all[:cut]...), append([]int(nil), all[cut:]...)}})
+		}
+		one := Config{}
+		for i := range all {
+			one.Blocks = append(one.Blocks, []int{i})
+		}
+		return append(res, one)
+	}
 	reach := g.reach()
 	var res []Config
 	for _, part := range setPartitions(g.N()) {
@@ -513,6 +567,22 @@ func (g *Graph) isTopological(c Config) bool {
 var inputValues = []uint8{0, 1, 2, 127, 255}
 
 func inputVectors(k int) [][]uint8 {
+	if k > 3 {
+		// long chains: all inputs equal (one vector per value) plus a ramp and a reverse ramp
+		var res [][]uint8
+		for _, x := range inputValues {
+			v := make([]uint8, k)
+			for i := range v {
+				v[i] = x
+			}
+			res = append(res, v)
+		}
+		up, down := make([]uint8, k), make([]uint8, k)
+		for i := range up {
+			up[i], down[i] = uint8(i+1), uint8(3*(k-i))
+		}
+		return append(res, up, down)
+	}
 	res := [][]uint8{{}}
 	for i := 0; i < k; i++ {
 		var nx [][]uint8
